@@ -7,6 +7,37 @@
 #include <occa/internal/utils/env.hpp>
 #include <occa/internal/io.hpp>
 
+#ifdef LIBOCCA_OCCA_VERIF
+// Verification hook (compiled only with -DLIBOCCA_OCCA_VERIF, active only when the
+// environment variable OCCA_VERIF_HASHLOG names a file): records how hashes are
+// computed and combined, so that the composition of cache keys can be extracted.
+#include <cstdio>
+#include <cstdlib>
+namespace {
+  void verifHashLog(const char kind,
+                    const int *res, const int *a, const int *b,
+                    const void *ptr, const size_t bytes) {
+    const char *path = getenv("OCCA_VERIF_HASHLOG");
+    if (!path) return;
+    FILE *f = fopen(path, "a");
+    if (!f) return;
+    fputc(kind, f);
+    const int *hs[3] = {res, a, b};
+    for (int k = 0; k < 3; ++k) {
+      if (!hs[k]) continue;
+      fputc(' ', f);
+      for (int i = 0; i < 8; ++i) fprintf(f, "%08x", (unsigned int) hs[k][i]);
+    }
+    if (ptr) {
+      fputc(' ', f);
+      for (size_t i = 0; i < bytes; ++i) fprintf(f, "%02x", (unsigned int) ((const unsigned char*) ptr)[i]);
+    }
+    fputc('\n', f);
+    fclose(f);
+  }
+}
+#endif
+
 namespace occa {
   hash_t::hash_t() {
     initialized = false;
@@ -85,6 +116,9 @@ namespace occa {
       mix.h[i] = (h[i] ^ hash.h[i]);
     }
     mix.initialized = true;
+#ifdef LIBOCCA_OCCA_VERIF
+    verifHashLog('X', mix.h, h, hash.h, NULL, 0);
+#endif
     return mix;
   }
 
@@ -166,6 +200,9 @@ namespace occa {
     }
     hash.initialized = true;
 
+#ifdef LIBOCCA_OCCA_VERIF
+    verifHashLog('H', hash.h, NULL, NULL, ptr, bytes);
+#endif
     return hash;
   }
 
